@@ -20,6 +20,13 @@ package dastard
 //
 // The harness plays the core loop's part: it performs the steps of Start() and then takes
 // raw blocks from getNextBlock().
+//
+// Histories: one AbacoSource object lives through 1–3 runs (Configure, the steps of Start(),
+// data, Stop() called by a client task, Configure again …) with the same channel groups and
+// producers; everything else is drawn anew per run (nextRun). A run is stopped after its
+// stream has ended or in mid-stream (from between reader ticks or while the reader is inside
+// ReadAllPackets). In faulted runs the block consumer is sometimes slow, so that the reader
+// gets one or more buffers ahead of it.
 
 import (
 	"bytes"
@@ -82,6 +89,8 @@ type abacoSimGroup struct {
 	burstLeft   int
 	lossFirst   bool
 	prod        *abacoSimProducer
+	seqEnd      uint32 // (later runs of a history) the sequence number after the previous run's last packet
+	lastDeliv   int    // largest index delivered in the run phase
 }
 
 func (g *abacoSimGroup) index() GroupIndex { return GroupIndex{Firstchan: g.firstChan, Nchan: g.nchan} }
@@ -124,6 +133,21 @@ type abacoSimWorld struct {
 	running  bool // run phase (after StartRun began)
 	as       *AbacoSource
 
+	// history: several Configure/Start/Stop cycles on ONE AbacoSource object
+	runNo   int // 0 for the first run on the source object
+	histLen int // number of runs in this history
+
+	// how the run ends: Stop() after the stream has ended, or in mid-stream
+	stopEarly    bool
+	stopAt       int  // … once every group has got this far
+	stopInRead   bool // … called while the reader is inside ReadAllPackets (else between ticks)
+	stopAsked    bool
+	stopReturned bool
+
+	consumerLag  bool // the block consumer falls behind the reader now and then
+	nConsumerLag int
+	firstCommon  bool
+
 	nStalls     int
 	nSleeps     int
 	tickPackets int
@@ -140,7 +164,8 @@ type abacoSimWorld struct {
 
 func abacoSimPick(menu []int) int { return menu[simrt.Draw(len(menu))] }
 
-// newAbacoSimWorld draws the layout and the network behaviour of one run.
+// newAbacoSimWorld draws the layout of a source (groups, channels, producers: fixed for all
+// runs on that source object) and the first run on it.
 func newAbacoSimWorld(env *simrt.Env, check string) *abacoSimWorld {
 	w := &abacoSimWorld{env: env, check: check, faulted: env.Faulted(), lagGroup: -1}
 	// virtual CPU time per scheduler step, measured (used to size stalls in simulated time)
@@ -150,15 +175,11 @@ func newAbacoSimWorld(env *simrt.Env, check string) *abacoSimWorld {
 	if w.delta <= 0 {
 		w.delta = time.Microsecond
 	}
-
+	w.histLen = []int{1, 2, 1, 3}[simrt.Draw(4)]
 	ngroups := 1 + simrt.Draw(4)
-	w.fpp = abacoSimPick([]int{1, 2, 3, 5, 8, 10, 16, 25, 50, 1 + simrt.Draw(50)})
-	w.period = time.Duration(abacoSimPick([]int{25, 50, 10, 17, 30, 60, 120, 12})) * time.Millisecond
-	w.salt = uint32(simrt.Draw(1 << 16))
 	first := simrt.Draw(3)
-	payload := simrt.Draw(4) // 0 all int16, 1 all int32, 2/3 mixed
 	for i := 0; i < ngroups; i++ {
-		g := &abacoSimGroup{ord: i, firstRun: -1, lastSampled: -1}
+		g := &abacoSimGroup{ord: i, firstRun: -1, lastSampled: -1, lastDeliv: -1}
 		g.nchan = abacoSimPick([]int{1, 2, 3, 4, 8, 5, 6, 7})
 		g.firstChan = first
 		first += g.nchan
@@ -167,43 +188,7 @@ func newAbacoSimWorld(env *simrt.Env, check string) *abacoSimWorld {
 		}
 		g.chanOff = w.nchan
 		w.nchan += g.nchan
-		switch payload {
-		case 0:
-		case 1:
-			g.wide = true
-		default:
-			g.wide = simrt.Draw(2) == 1
-		}
-		g.seq0 = 1 + uint32(simrt.Draw(1<<30))
 		w.groups = append(w.groups, g)
-	}
-	// duration: bounded by reader ticks and by the goroutines the code starts per tick
-	w.npackets = 24 + simrt.Draw(120)
-	for {
-		ticks := int(time.Duration(w.npackets) * w.period / abacoSimTick)
-		if w.npackets <= 24 || (ticks <= 280 && ticks*(2*w.nchan+3) <= 3400) { // also bounds the tasks per run (the runtime allows 4096)
-			break
-		}
-		w.npackets = w.npackets * 3 / 4
-	}
-	// latency processes: per-group constant below one tick, optional jitter
-	latMode := simrt.Draw(3)
-	for _, g := range w.groups {
-		g.baseLat = time.Duration(1+simrt.Draw(5)) * time.Millisecond
-		if latMode >= 1 {
-			g.baseLat = time.Duration(1+simrt.Draw(45)) * time.Millisecond
-		}
-		if latMode == 2 {
-			g.jitter = time.Duration(simrt.Draw(20)) * time.Millisecond
-		}
-		g.kSample = 2
-	}
-	k := 2 + simrt.Draw(5)
-	for _, g := range w.groups {
-		g.kSample = k
-		if w.faulted && simrt.Draw(3) == 2 {
-			g.kSample = 2 + simrt.Draw(6)
-		}
 	}
 	// producers: one or two
 	nprod := 1
@@ -221,6 +206,78 @@ func newAbacoSimWorld(env *simrt.Env, check string) *abacoSimWorld {
 		g.prod = p
 		p.groups = append(p.groups, g)
 	}
+	w.drawRun()
+	return w
+}
+
+// nextRun makes the world of the next run on the same source object: same channel groups
+// and producers (the "sockets" keep their open/closed state), everything else drawn anew.
+func (w *abacoSimWorld) nextRun() *abacoSimWorld {
+	n := &abacoSimWorld{env: w.env, check: w.check, faulted: w.faulted, lagGroup: -1, delta: w.delta, as: w.as,
+		runNo: w.runNo + 1, histLen: w.histLen, nchan: w.nchan, lowZero: w.lowZero}
+	for _, p := range w.prods {
+		n.prods = append(n.prods, &abacoSimProducer{w: n, id: p.id, started: p.started, stopped: p.stopped})
+	}
+	for _, g := range w.groups {
+		ng := &abacoSimGroup{ord: g.ord, firstChan: g.firstChan, nchan: g.nchan, chanOff: g.chanOff, firstRun: -1, lastSampled: -1, lastDeliv: -1,
+			seqEnd: g.seq0 + uint32(w.npackets)}
+		ng.prod = n.prods[g.prod.id]
+		ng.prod.groups = append(ng.prod.groups, ng)
+		n.groups = append(n.groups, ng)
+	}
+	n.drawRun()
+	return n
+}
+
+// drawRun draws what one run sends and how the network treats it.
+func (w *abacoSimWorld) drawRun() {
+	w.fpp = abacoSimPick([]int{1, 2, 3, 5, 8, 10, 16, 25, 50, 1 + simrt.Draw(50)})
+	w.period = time.Duration(abacoSimPick([]int{25, 50, 10, 17, 30, 60, 120, 12})) * time.Millisecond
+	w.salt = uint32(simrt.Draw(1 << 16))
+	payload := simrt.Draw(4) // 0 all int16, 1 all int32, 2/3 mixed
+	for _, g := range w.groups {
+		switch payload {
+		case 0:
+		case 1:
+			g.wide = true
+		default:
+			g.wide = simrt.Draw(2) == 1
+		}
+		g.seq0 = 1 + uint32(simrt.Draw(1<<30))
+		if w.runNo > 0 && simrt.Draw(2) == 1 {
+			g.seq0 = g.seqEnd + uint32(simrt.Draw(1000)) // the firmware kept counting
+		}
+	}
+	// duration: bounded by reader ticks and by the goroutines the code starts per tick
+	w.npackets = 24 + simrt.Draw(120)
+	if w.histLen > 1 {
+		w.npackets = 24 + simrt.Draw(50)
+	}
+	for {
+		ticks := int(time.Duration(w.npackets) * w.period / abacoSimTick)
+		if w.npackets <= 24 || (ticks <= 280 && ticks*(2*w.nchan+3) <= 3400) { // keeps a run at a few thousand scheduler steps
+			break
+		}
+		w.npackets = w.npackets * 3 / 4
+	}
+	// latency processes: per-group constant below one tick, optional jitter
+	latMode := simrt.Draw(3)
+	for _, g := range w.groups {
+		g.baseLat = time.Duration(1+simrt.Draw(5)) * time.Millisecond
+		if latMode >= 1 {
+			g.baseLat = time.Duration(1+simrt.Draw(45)) * time.Millisecond
+		}
+		if latMode == 2 {
+			g.jitter = time.Duration(simrt.Draw(20)) * time.Millisecond
+		}
+	}
+	k := 2 + simrt.Draw(5)
+	for _, g := range w.groups {
+		g.kSample = k
+		if w.faulted && simrt.Draw(3) == 2 {
+			g.kSample = 2 + simrt.Draw(6)
+		}
+	}
 	w.tsRate = 1e8
 	w.tsStep = uint64(w.period / (10 * time.Nanosecond))
 	w.ts0 = 1000 + uint64(simrt.Draw(1<<30))
@@ -230,7 +287,6 @@ func newAbacoSimWorld(env *simrt.Env, check string) *abacoSimWorld {
 		g.fate = make([]uint8, w.npackets)
 		g.delivAt = make([]time.Time, w.npackets)
 	}
-	return w
 }
 
 // drawFaults draws the fault plan of a faulted run (loss only when withLoss).
@@ -276,6 +332,9 @@ func (w *abacoSimWorld) drawFaults(withLoss bool) {
 			at := 0
 			for i := 0; i < n; i++ {
 				from := at + simrt.DrawFault(1+w.npackets/3)
+				if i == 0 && simrt.DrawFault(2) == 1 {
+					from = 0 // the group is behind from the very start of the run
+				}
 				to := from + 1 + simrt.DrawFault(1+w.npackets/3)
 				if to > w.faultEnd {
 					to = w.faultEnd
@@ -296,11 +355,19 @@ func (w *abacoSimWorld) drawFaults(withLoss bool) {
 			w.sleepOn = true
 			any = true
 		}
+		if simrt.DrawFault(3) == 1 {
+			w.consumerLag = true
+			any = true
+		}
 	}
 }
 
 func (w *abacoSimWorld) describe() string {
-	s := fmt.Sprintf("%s world: %d groups, %d frames/packet, packet period %v, %d packets/group, %d producers, discardStale effective=%v, fault window ends at packet %d",
+	s := fmt.Sprintf("run %d of %d on this source object; ", w.runNo+1, w.histLen)
+	if w.stopEarly {
+		s += fmt.Sprintf("Stop() once every group has reached packet %d (from inside a read: %v); ", w.stopAt, w.stopInRead)
+	}
+	s += fmt.Sprintf("%s world: %d groups, %d frames/packet, packet period %v, %d packets/group, %d producers, discardStale effective=%v, fault window ends at packet %d",
 		w.check, len(w.groups), w.fpp, w.period, w.npackets, len(w.prods), w.discardWorks, w.faultEnd)
 	for _, g := range w.groups {
 		bits := 16
@@ -310,7 +377,7 @@ func (w *abacoSimWorld) describe() string {
 		s += fmt.Sprintf("; group %d: chan %d..%d int%d seq0=%d latency %v+%v producer %d sampled %d", g.ord, g.firstChan, g.firstChan+g.nchan-1, bits, g.seq0, g.baseLat, g.jitter, g.prod.id, g.kSample)
 	}
 	if w.faulted {
-		s += fmt.Sprintf("; faults: bernoulli %d/%d burst=%v whole-tick=%v lag group %d %v stall=%v slow-read=%v", w.lossBernNum, w.lossBernDen, w.lossBurst, w.lossTick, w.lagGroup, w.lags, w.stallOn, w.sleepOn)
+		s += fmt.Sprintf("; faults: bernoulli %d/%d burst=%v whole-tick=%v lag group %d %v stall=%v slow-read=%v consumer-lag=%v", w.lossBernNum, w.lossBernDen, w.lossBurst, w.lossTick, w.lagGroup, w.lags, w.stallOn, w.sleepOn, w.consumerLag)
 		for _, g := range w.groups {
 			if g.lossFirst {
 				s += fmt.Sprintf(" first-after-start(group %d)", g.ord)
@@ -609,6 +676,16 @@ func (p *abacoSimProducer) ReadAllPackets() ([]*packets.Packet, error) {
 		w.ticksSeen++
 		w.tickPackets = 0
 	}
+	if w.stopEarly && w.stopInRead && !w.stopAsked && w.running && w.minNextIdx() >= w.stopAt {
+		// the client's Stop() arrives while the reader is inside a tick
+		w.requestStop("while the reader is inside ReadAllPackets")
+		for i := 0; i < 4 && !w.abortClosed(); i++ {
+			simrt.Gosched()
+		}
+		if w.abortClosed() {
+			simrt.Hit("stop-while-reader-in-tick")
+		}
+	}
 	if w.faultWindowOpen() {
 		if w.stallOn && w.nStalls < 4 && simrt.Chance(1, 14) { // (a stall costs up to 3000 steps of the run's budget)
 			w.nStalls++
@@ -672,6 +749,7 @@ func (p *abacoSimProducer) ReadAllPackets() ([]*packets.Packet, error) {
 			}
 			g.fate[idx] = abacoSimDelivered
 			g.delivAt[idx] = nowT
+			g.lastDeliv = idx
 			if g.firstRun < 0 {
 				g.firstRun = idx
 			}
@@ -696,6 +774,25 @@ func (p *abacoSimProducer) ReadAllPackets() ([]*packets.Packet, error) {
 		simrt.Hit("multi-tick-batch")
 	}
 	p.lastRead = nowT
+	if !w.firstCommon && p.id == len(w.prods)-1 {
+		// the first tick on which every group has delivered something: is a group that was sampled
+		// less deeply still short of the common starting point (its queue is emptied by the alignment)?
+		all, S := true, 0
+		for _, g := range w.groups {
+			all = all && g.firstRun >= 0
+			if g.lastSampled+1 > S {
+				S = g.lastSampled + 1
+			}
+		}
+		if all {
+			w.firstCommon = true
+			for _, g := range w.groups {
+				if g.lastDeliv < S {
+					simrt.Hit("first-alignment-empties-a-group")
+				}
+			}
+		}
+	}
 	if !w.quiet && w.minNextIdx() >= w.faultEnd {
 		w.quiet = true
 		w.quietAt = nowT
@@ -713,9 +810,14 @@ func (w *abacoSimWorld) startSource(opts AbacoUnwrapOptions) {
 	clientMessageChan = make(chan ClientUpdate, 16)
 	resetViper(w.env.Dir)
 	simrt.MapShuffle = true
-	as, err := NewAbacoSource()
-	if err != nil {
-		simrt.Fail("harness.start", "harness:new-source", "NewAbacoSource: %v", err)
+	as := w.as
+	if as == nil {
+		var err error
+		if as, err = NewAbacoSource(); err != nil {
+			simrt.Fail("harness.start", "harness:new-source", "NewAbacoSource: %v", err)
+		}
+	} else {
+		simrt.Hit("restart-on-same-source-object")
 	}
 	if err := as.Configure(&AbacoSourceConfig{AbacoUnwrapOptions: opts}); err != nil {
 		simrt.Fail("harness.start", "harness:configure", "Configure: %v", err)
@@ -742,29 +844,66 @@ func (w *abacoSimWorld) startSource(opts AbacoUnwrapOptions) {
 	as.RunDoneActivate()
 	w.running = true
 	c03InStartRun = true
-	err = as.StartRun()
+	err := as.StartRun()
 	c03InStartRun = false
 	if err != nil {
 		simrt.Fail("harness.start", "harness:startrun", "StartRun: %v", err)
 	}
 }
 
+// requestStop has a client task call the real Stop() (which closes abortSelf and then waits for
+// the run to end; the pump below ends it the way CoreLoop does).
+func (w *abacoSimWorld) requestStop(why string) {
+	if w.stopAsked {
+		return
+	}
+	w.stopAsked = true
+	w.env.Op("client calls Stop() %s (run %d)", why, w.runNo+1)
+	as := w.as
+	simrt.GoHarness("stopper", func() {
+		if err := as.Stop(); err != nil {
+			simrt.Note("harness.stop", "harness:stop-error", "Stop() on the running source: %v", err)
+		}
+		w.stopReturned = true
+	})
+}
+
+func (w *abacoSimWorld) abortClosed() bool {
+	select {
+	case <-w.as.abortSelf:
+		return true
+	default:
+		return false
+	}
+}
+
 // pump takes blocks from getNextBlock() like CoreLoop does. onIdle is called every 100 ms
-// of simulated time and returns true when the run should be ended (the harness then does
-// what Stop() does: closes abortSelf, and keeps draining until the block channel closes).
-// It returns true if the block channel closed before the harness asked for it.
+// of simulated time and returns true when the client should stop the source. The pump keeps
+// draining until the block channel closes, then does what CoreLoop's deferred calls do.
+// It returns true if the block channel closed before Stop() was called.
 func (w *abacoSimWorld) pump(onBlock func(b *dataBlock), onIdle func() bool) (selfEnded bool) {
 	as := w.as
 	tick := time.NewTicker(100 * time.Millisecond)
 	defer tick.Stop()
-	aborted := false
 	nb := as.getNextBlock()
 	for {
+		if w.consumerLag && w.nConsumerLag < 5 && !w.stopAsked && w.faultWindowOpen() && simrt.Chance(1, 10) {
+			// the consumer (block processing) is slow: the reader gets ahead by one or more buffers
+			w.nConsumerLag++
+			d := time.Duration(60+simrt.DrawFault(340)) * time.Millisecond
+			w.env.Op("block consumer busy for %v", d)
+			simrt.Fault("consumer-lag")
+			time.Sleep(d)
+			if len(as.buffersChan) >= 1 {
+				simrt.Hit("consumer-behind-by-a-buffer")
+			}
+		}
 		select {
 		case blk, ok := <-nb:
 			if !ok {
+				selfEnded = !w.stopAsked
 				w.finish()
-				return !aborted
+				return selfEnded
 			}
 			if blk.err != nil {
 				w.finish()
@@ -773,18 +912,28 @@ func (w *abacoSimWorld) pump(onBlock func(b *dataBlock), onIdle func() bool) (se
 			onBlock(blk)
 			nb = as.getNextBlock()
 		case <-tick.C:
-			if !aborted && onIdle() {
-				closeIfOpen(as.abortSelf)
-				aborted = true
+			if !w.stopAsked && onIdle() {
+				w.requestStop("between reader ticks")
 			}
 		}
 	}
 }
 
+// finish does what CoreLoop's deferred calls do, waits for the client's Stop() to return and
+// releases the run's tickers.
 func (w *abacoSimWorld) finish() {
 	as := w.as
 	as.RunDoneDeactivate()
 	as.numberWrittenTicker.Stop()
 	as.writingState.externalTriggerTicker.Stop()
 	as.writingState.dataDropTicker.Stop()
+	if w.stopAsked {
+		deadline := time.Now().Add(20 * time.Second)
+		for !w.stopReturned {
+			if time.Now().After(deadline) {
+				simrt.Fail(w.check+".stop-returns", "lifecycle:stop-hangs", "the run has ended but Stop() has not returned after 20 s; tasks %v", simrt.AliveTaskInfo())
+			}
+			time.Sleep(time.Millisecond)
+		}
+	}
 }
